@@ -6455,6 +6455,17 @@ impl<'a, 'graph> Builder<'a, 'graph> {
                 content,
               })) = result
               {
+                if specifier != load_specifier
+                  && jsr_url_provider.package_url_to_nv(&specifier).is_some()
+                {
+                  // as above: the loader followed a redirect into the
+                  // registry by itself
+                  return handle_redirect(
+                    specifier,
+                    maybe_attribute_type,
+                    maybe_checksum,
+                  );
+                }
                 return handle_success(
                   module_analyzer,
                   specifier.clone(),
